@@ -49,6 +49,8 @@ class PeeringScenario(Scenario):
         super().__init__(**params)
         self.horizon = params['horizon']
         self.grid = params.get('grid')
+        if params.get('max_steps'):
+            self.max_steps = int(params['max_steps'])
 
     def delays(self, env: Env, req: Request) -> bool:
         return bool(self.params.get('timing')) and req.method == 'patch' and 'clusterkopfpeerings' in req.path
@@ -91,7 +93,8 @@ class PeeringScenario(Scenario):
             kopf.on.cleanup(id='cl', registry=reg)(scripted(env, f'cl-{ident}', parse_script([f"ok~{self.params['slow_cleanup']}"])))
         settings = make_settings(peering__standalone=False, peering__name='default', peering__priority=PRIORITIES[ident],
                                  peering__lifetime=int(self.params.get('lifetime', LIFETIME)), peering__mandatory=True,
-                                 networking__error_backoffs=tuple(self.params.get('error_backoffs', ())))
+                                 networking__error_backoffs=tuple(self.params.get('error_backoffs', ())),
+                                 **({'watching__inactivity_timeout': float(self.params['inactivity_timeout'])} if self.params.get('inactivity_timeout') else {}))
         op = Operator(env, opid, reg, settings, identity=ident)
         env.memo['ops'][ident] = op
         env.memo['running'][ident] = opid
@@ -181,8 +184,9 @@ class PeeringScenario(Scenario):
                 checkpoints.append((t, dict(running), dict(ghosts), last_change, dict(killed_at)))
             elif k == 'operator-exit' and p.get('how') == 'raised':
                 out.append(self.viol(env, 'operator-failed', f"t={t}: operator {p['op']} raised {p.get('error')}", clause='safety'))
-        stable_after = LIFETIME + 12.0
         for t, run, gh, changed, killed in checkpoints:
+            # dead records (of killed operators, foreign ones) take a lifetime to expire; nothing else needs waiting for
+            stable_after = (max(LIFETIME, int(self.params.get('lifetime', LIFETIME))) if killed or gh else LIFETIME) + 12.0
             if not exact and t - changed < stable_after + 10:
                 continue
             # who is expected to be active
@@ -393,6 +397,20 @@ def run(tier: str, seed: int) -> CheckResult:
                                     flaky_keepalive='B', flaky_after=30.0, error_backoffs=[3.0]))
         hist.append(PeeringScenario(user=user, horizon=stop_at + 105.0, history=[['start', 'B'], ['stop', 'B']], spacing=0.0, jitter='min',
                                     flaky_keepalive='B', flaky_after=30.0, error_backoffs=[3.0], slow_cleanup=6))
+    # lifetimes of a day and more (a record states its lifetime in seconds): renewed before it expires, and a lower-priority operator
+    # stays paused for as long as the higher one lives - judged an hour, most of a day, and more than a day after the start
+    for lt in ((90000,) if tier == 'quick' else (86400, 90000, 173400)):
+        for h in ([('start', 'B')], [('start', 'C')], [('start', 'B'), ('stop', 'A')], [('start', 'B'), ('kill', 'A')]):
+            user = [(0.0, 'start', 'A'), (2.0, 'create', 'a')]
+            t = 10.0
+            for a in h:
+                user.append((t, *a))
+                t += 30.0
+            user += [(4000.0, 'check', 'hour'), (4001.0, 'edit', 'a'), (80000.0, 'check', 'day'), (lt + 5000.0, 'check', 'renewed'), (lt + 5001.0, 'edit', 'a'),
+                     (lt + 5100.0, 'check', 'final')]
+            # (a paused operator polls its daemons every second: a day takes some 10^5 loop steps; the idle watch is not re-opened meanwhile)
+            hist.append(PeeringScenario(user=user, horizon=lt + 5150.0, history=[list(a) for a in h], spacing=30.0, jitter='min', lifetime=lt,
+                                        max_steps=3_000_000, inactivity_timeout=10.0 * lt))
     reps = [build(h, 100.0, j, timing=True, grid=1.0) for h in ([('start', 'B')], [('start', 'B'), ('kill', 'B')], [('start', 'C')]) for j in ('min', 'max')]
     if tier == 'quick':
         groups = [('histories', hist, 0, 120.0), ('keepalive-latency', reps, 1, 60.0)]
